@@ -829,6 +829,32 @@ func VerifyFunction(c *Ctx, fn *ssa.Function, ct *Contract, want func(string, []
 		fr.vals[fv] = v
 	}
 	st.frames = []*Frame{fr}
+	// Values reachable in one step from a pointer parameter are well typed in the entry state (slice
+	// headers within bounds, references allocated or nil) - the same facts the executor assumes whenever
+	// the code loads such a value; stating them here makes them available to contracts that mention the
+	// field (old(it.segments)) on paths where the code never loads it.
+	for i, p := range fn.Params {
+		pt, ok := under(p.Type()).(*types.Pointer)
+		if !ok {
+			continue
+		}
+		sti, ok := under(pt.Elem()).(*types.Struct)
+		if !ok {
+			continue
+		}
+		pv, ok := fr.args[i].(T)
+		if !ok {
+			continue
+		}
+		for k := 0; k < sti.NumFields(); k++ {
+			switch under(sti.Field(k).Type()).(type) {
+			case *types.Slice, *types.Pointer, *types.Interface, *types.Map:
+				hn, hs := c.FieldHeap(pt.Elem(), k)
+				c.declHeap(hn, hs)
+				ex.assumeTyped(st, Select(st.Heap(hn, hs), pv), sti.Field(k).Type())
+			}
+		}
+	}
 	fr.entry = st.snapshot()
 	// preconditions
 	ev := ex.contractEnv(st, fn, ct, fr.args, nil, fr.entry, fr.entry)
